@@ -58,6 +58,7 @@ type judgeStats struct {
 	closedTold, ctxTold                   bool
 	lowerJudged                           bool
 	undeliveredInflight, recoveredByDrain int64
+	allBeforeClosed                       bool
 }
 
 type deliv struct {
@@ -150,6 +151,7 @@ func judge(h *history) ([]finding, judgeStats) {
 				nBefore[nx.Item]++
 			} else {
 				st.recoveredByDrain += u
+				add("item-after-closed", "Next #%d [call %d, ret %d] returned item %d (dups %d) after an earlier Next had already reported the queue closed: a closed report must be final and everything accepted must have been delivered before it", k, nx.Call, nx.Ret, nx.Item, nx.Dups)
 			}
 		case errClosed:
 			if nx.Ret < h.CloseCall {
@@ -181,6 +183,10 @@ func judge(h *history) ([]finding, judgeStats) {
 		if st.closedTold {
 			if Dbefore[i] < B[i] {
 				add("conservation-lost", "item %d: %d Inserts of it completed (nil error) before Close was called at tick %s, but sum(1+dups) over its deliveries before the consumer was told 'closed' is only %d", i, B[i], tk(h.CloseCall), Dbefore[i])
+			} else if Dbefore[i] < A[i] {
+				// Linearizable reading (D30): an Insert that returned a nil error took
+				// effect before the queue was closed, whatever its overlap with Close.
+				add("accepted-but-not-delivered-before-closed", "item %d: %d Inserts of it returned a nil error (%d of them overlapping or following the Close call at tick %s), but sum(1+dups) over its deliveries before the consumer was told 'closed' is only %d: an accepted insertion was dropped or left behind", i, A[i], A[i]-B[i], tk(h.CloseCall), Dbefore[i])
 			}
 			if nBefore[i] < trueB[i] {
 				add("new-flag", "item %d: %d Inserts that completed before Close reported it as new (each starts a separate pending episode) but it was delivered only %d times before 'closed'", i, trueB[i], nBefore[i])
@@ -203,7 +209,10 @@ func judge(h *history) ([]finding, judgeStats) {
 	st.lowerJudged = st.closedTold
 	if st.closedTold && sumDb < sumB {
 		add("conservation-lost", "in total %d insertions completed before Close, only %d accounted for by deliveries before 'closed'", sumB, sumDb)
+	} else if st.closedTold && sumDb < sumA {
+		add("accepted-but-not-delivered-before-closed", "in total %d Inserts returned a nil error, only %d accounted for by deliveries before 'closed'", sumA, sumDb)
 	}
+	st.allBeforeClosed = st.closedTold && sumDb == sumA
 	st.undeliveredInflight = sumA - sumDt
 	if st.undeliveredInflight < 0 {
 		st.undeliveredInflight = 0
